@@ -30,7 +30,7 @@ CHECKS = {
  "C03": ("RunnerLab", "PBT with validity predicate over the whole event stream (framing / bracket nesting / ParsingFinished counts) under generated parser behaviours and schedules; exhaustive schedules of small cases",
          "Validity predicate over the full stream for generated feature sets (empty features/rules, parser errors, lazy delivery, retries, fail-fast) under harness-chosen completion orders.",
          "ParsingFinished.steps compared with scenario steps only (reading R3).", "6/C03"),
- "C04": ("RunnerLab", "PBT over lazy parser streams (items behind gates released at harness-chosen quiescent points) with set-equality oracle, bounded-progress termination criteria (H1 idle-turn hook, stall detection) and a resumption invariant (every future whose gate the schedule opened has been polled again before the runner goes quiet)",
+ "C04": ("RunnerLab", "PBT over lazy parser streams (items behind gates released at harness-chosen quiescent points) with set-equality oracle, bounded-progress termination criteria (H1 idle-turn hook, stall detection) and a resumption invariant (every future whose gate the schedule opened has been polled again before the runner goes quiet); a second campaign judges termination on the crate built with its `tracing` feature (vtrace, callbacks leaving child spans alive)",
          "Started set == supplied set, and termination judged by logical criteria (idle-turn hook, stall with nothing pending) over generated parser delays, retry delays and schedules. Liveness is checked as bounded progress only.",
          "Termination = bounded progress; H1 hook limit 10000 idle turns per poll.", "6/C04"),
  "C05": ("RunnerLab", "PBT with chain model over per-attempt outcome sequences (budget from tags/CLI/builder/closure), sound lower bound on retry delay from harness clock; clock-free stall check (woken callbacks of other attempts are resumed while a retry delay is outstanding)",
@@ -48,7 +48,7 @@ CHECKS = {
  "C09": ("RunnerLab", "PBT with invariants over World-instance groups of the callback log (instance ids, mutation counters, hook arguments, ScenarioFinished reason) joined with the attempt model",
          "World identity / state threading / hook contract checked from an instrumented World and hooks for generated shapes, failures in hooks and World::new, interleaved attempts.",
          "Attribution of background-step callbacks through World ids.", "6/C09"),
- "C10": ("RunnerLab", "fault-injection PBT: panics with String/&str/custom/i32 payloads (inside the future or synchronously before it is returned, also in World::new) and World::new errors at generated positions; token accounting + panic-hook probe",
+ "C10": ("RunnerLab", "fault-injection PBT: panics with String/&str/custom/i32 payloads (inside the future or synchronously before it is returned, also in World::new) and World::new errors at generated positions; token accounting + panic-hook probe; macro-defined steps returning Err (all return-type spellings of the C19 zoo) run through the real runner",
          "Every injected fault is reported exactly once with its payload, attempts complete, nothing escapes the stream, the panic hook is silent during and restored after the run.",
          "'prints nothing' is observed through a probe panic hook, not by capturing stderr.", "6/C10"),
  "C15": ("FuncLab", "PBT with reference evaluator: generated tagged feature sets x (--name regex, --tags AST, closure) presence combinations through Cucumber::custom(VecParser, RecordingRunner).filter_run; expected feature list computed independently and compared with gherkin::Feature equality; TagOperation::eval and the textual tag-expression parser vs a reference boolean evaluator",
